@@ -74,6 +74,15 @@ Proof.
 Qed.
 Print Assumptions C09_call_transparent.
 
+(* the uncached twin of this model is exactly Pipe.run, the model of C02 *)
+Theorem C09_uncached_twin_is_pipe_run :
+  forall body pick (C : Type) (P : policy C) (p : pipeline), roots_okb p = true ->
+  forall kw full (c : C) o,
+    crun body pick P false false p c o kw full
+    = (fst (Pipe.run body pick p o kw full), snd (Pipe.run body pick p o kw full), c).
+Proof. exact @uncached_twin_is_pipe_run. Qed.
+Print Assumptions C09_uncached_twin_is_pipe_run.
+
 (* ---------- no re-execution ---------- *)
 (* A call does not execute a cached function f0 whose entry (the key k0 that requests for f0's outputs compute in
    this call) is resident when the call starts - for policies that never evict (SimpleCache, DiskCache without
